@@ -14,6 +14,8 @@ CLAIMED['C01'] = dict(text="History theorem C01_history_wf (props/C01.v): for EV
              technique="Coq proof by induction over operation histories + verified boolean checker run on implementation outputs + stepwise differential correspondence", ref="6/C01")
 CLAIMED['C10'] = dict(text="Theorems (props/C10.v) for ALL well-formed forests and targets: reroot preserves the node list, row order, payload and the undirected edge set, makes the target a root, leaves rows off the reversed path (all other fragments) identical and is the identity on current roots; cut pieces are descendants-or-self / the rest, share only the cut node and contain every edge exactly once; subset keeps exactly requested-and-present ids with the original parent iff it survives, exactly the connectors/tags of survivors; prevent_fragments: superset, connected, only nodes on requested nodes' root paths (global minimality is partial: decided by model equality on outputs). Tie: exact equality of node tables, types, connector tables and tag maps between navis and the model evaluated in Coq on random forests/backends.",
              technique="Coq proofs of functional specifications + exact differential correspondence (vm_compute vs navis)", ref="6/C10")
+CLAIMED['C05'] = dict(text="The model IS the definition the property names (walk parent links, sum edge lengths). Theorems (props/C05.v): root distance obeys the parent recurrence; the geodesic distance is symmetric, 0 on the diagonal, finite exactly when the two chains share an ancestor; directed distance is defined exactly for ancestors and agrees with the undirected one; limit and adjacency-by-id specs; partition_okb/shape_okb, the checkers run on EVERY segments/small_segments output, are proved to accept only partitions of the edge set into child->parent paths with the right end types (soundness); the model's own small segments are chains (their coverage is partial, see theorem name). Tie: label-keyed comparison of geodesic_matrix/dist_between/dist_to_root/distal_to/cable_length/adjacency with the model (exact on the integer-length lattice stream), all from_/directed/weight/limit settings, three backends.",
+             technique="Coq proofs about the definitional model + verified checkers applied to implementation outputs + differential correspondence", ref="6/C05")
 PENDING = {}
 props = [json.loads(l) for l in open(os.path.join(V, 'properties.jsonl'))]
 checks, na = [], []
